@@ -94,7 +94,9 @@ func (c *scriptConn) Close() {}
 var _ res.Conn = &scriptConn{}
 
 var sendMsgs = []string{`{"result":1}`, `{"error":{"code":"system.notFound","message":"Not found"}}`, `{"resource":{"rid":"a.b"}}`, ``, `[1]`, `"str"`,
-	`timeout:"%d"`, `timeout:"%d"`, `timeout:"%d"`, `timeout:"abc"`, `foo:"bar"`, `Timeout:"%d"`, `x:"1" timeout:"%d"`, `timeout:"%d" y:"2"`, `timeout`, `zzz`, `TIMEOUT:"5"`, `timeout:"-1"`}
+	`timeout:"%d"`, `timeout:"%d"`, `timeout:"%d"`, `timeout:"abc"`, `foo:"bar"`, `Timeout:"%d"`, `x:"1" timeout:"%d"`, `timeout:"%d" y:"2"`, `timeout`, `zzz`, `TIMEOUT:"5"`, `timeout:"-1"`,
+	// first bytes that are letters only to a Unicode-minded reader: these are responses (malformed ones)
+	"\xef\xbb\xbf{\"result\":\"bom\"}", "\xb5x", "\xe9t\xe9", "\xc3\xa9"}
 
 func (d *sendreqDom) Gen(r *gen.R, tier string, emit func(string)) {
 	n := 120
@@ -114,6 +116,12 @@ func (d *sendreqDom) Gen(r *gen.R, tier string, emit func(string)) {
 	for _, m := range []string{`Info:"working" timeout:"` + strconv.Itoa(3*u) + `"`, `X-Progress:"50"`, `A`, `z`, `Z:"1"`} {
 		lines = append(lines, wire.Line("send", "T", "T", "T", strconv.Itoa(2*u), "2", strconv.Itoa(u), m, strconv.Itoa(3*u), `{"result":"late"}`))
 	}
+	// an extension may shorten the deadline: the announced duration counts from the pre-response,
+	// whatever was left of the previous deadline (a response after it comes too late; silence ends there)
+	short := `timeout:"` + strconv.Itoa(2*u) + `"`
+	lines = append(lines, wire.Line("send", "T", "T", "T", strconv.Itoa(12*u), "2", strconv.Itoa(u), short, strconv.Itoa(6*u), `{"result":"late"}`))
+	lines = append(lines, wire.Line("send", "T", "T", "T", strconv.Itoa(12*u), "1", strconv.Itoa(u), short))
+	lines = append(lines, wire.Line("send", "T", "T", "T", strconv.Itoa(12*u), "3", strconv.Itoa(u), `timeout:"`+strconv.Itoa(9*u)+`"`, strconv.Itoa(2*u), short, strconv.Itoa(7*u), `{"result":"late"}`))
 	for i := 0; i < n; i++ {
 		ma, su, pu := "T", "T", "T"
 		switch r.Intn(12) {
